@@ -4,10 +4,10 @@ from types import SimpleNamespace
 import fw
 
 
-def make_bam(path, reflen, reads, extra_tag):
+def make_bam(path, contigs, reads, extra_tag):
     import pysam
-    header = {'HD': {'VN': '1.6', 'SO': 'coordinate'}, 'SQ': [{'SN': 'chr1', 'LN': reflen}]}
-    recs = sorted(enumerate(reads), key=lambda x: x[1]['pos'])
+    header = {'HD': {'VN': '1.6', 'SO': 'coordinate'}, 'SQ': [{'SN': n, 'LN': l} for n, l in contigs]}
+    recs = sorted(enumerate(reads), key=lambda x: (x[1]['contig'], x[1]['pos']))
     with pysam.AlignmentFile(path, 'wb', header=header) as out:
         for i, r in recs:
             a = pysam.AlignedSegment(out.header)
@@ -16,7 +16,7 @@ def make_bam(path, reflen, reads, extra_tag):
             a.flag = 0
             if r['paired']:
                 a.flag = 1 | 64  # paired, read1, mate mapped
-            a.reference_id = 0
+            a.reference_id = r['contig']
             a.reference_start = r['pos']
             a.mapping_quality = 60
             a.cigar = [(0, 1)]
@@ -36,38 +36,51 @@ def handler(p):
     kt = [[list(x) for x in T.coordinate_to_bins(*c)] for c in p['kernel']]
     tabs = []
     devnull = open(os.devnull, 'w')
-    for n, t in enumerate(p['tables']):
-        path = os.path.join(os.environ['SCMO_SCRATCH'], 't%d.bam' % n)
-        try:
-            make_bam(path, t['reflen'], t['reads'], t['extra_tag'])
-            args = SimpleNamespace(
-                alignmentfiles=[path], head=None, o=None, bin=t['bin'], binTag='DS', sliding=t['sliding'], bedfile=None,
-                showtags=False, featureTags=None, joinedFeatureTags=('XX,DS' if t['extra_tag'] else 'DS'), byValue=None,
-                sampleTags='SM', proper_pairs_only=False, no_indels=False, max_base_edits=None, no_softclips=False,
-                minMQ=0, filterXA=False, dedup=False, divideMultimapping=False, doNotDivideFragments=not t['divide'],
-                contig=None, blacklist=None, r1only=False, r2only=False, filterMP=False, splitFeatures=False,
-                featureDelimiter=',', feature_delimiter=',', noNames=False, keepOverBounds=t['keep'], bulk=False)
-            old = sys.stdout
-            sys.stdout = devnull
+    for n, h in enumerate(p['tables']):
+        # ONE options namespace for the whole history (as a script calling the API repeatedly would do)
+        args = SimpleNamespace(
+            alignmentfiles=[], head=None, o=None, bin=None, binTag='DS', sliding=None, bedfile=None,
+            showtags=False, featureTags=None, joinedFeatureTags=None, byValue=None,
+            sampleTags='SM', proper_pairs_only=False, no_indels=False, max_base_edits=None, no_softclips=False,
+            minMQ=0, filterXA=False, dedup=False, divideMultimapping=False, doNotDivideFragments=False,
+            contig=None, blacklist=None, r1only=False, r2only=False, filterMP=False, splitFeatures=False,
+            featureDelimiter=',', feature_delimiter=',', noNames=False, keepOverBounds=False, bulk=False)
+        outs = []
+        for j, c in enumerate(h['calls']):
             try:
-                df = T.create_count_table(args, return_df=True)
-            finally:
-                sys.stdout = old
-            cells = []
-            for sample in df.columns:
-                col = df[sample].dropna()
-                for idx, v in col.items():
-                    idx = idx if isinstance(idx, tuple) else (idx,)
-                    sname = sample[0] if isinstance(sample, tuple) else sample
-                    lo, hi = int(idx[-2]), int(idx[-1])
-                    other = idx[0] if t['extra_tag'] else None
-                    v2 = float(v) * 2
-                    assert v2 == int(v2)
-                    if v2 != 0:
-                        cells.append([[sname, other, lo, hi], int(v2)])
-            tabs.append({'cells': cells})
-        except BaseException as e:
-            tabs.append({'error': '%s: %s' % (type(e).__name__, e)})
+                paths = []
+                for f, bm in enumerate(c['bams']):
+                    path = os.path.join(os.environ['SCMO_SCRATCH'], 't%d_%d_%d.bam' % (n, j, f))
+                    make_bam(path, bm['contigs'], bm['reads'], h['extra_tag'])
+                    paths.append(path)
+                args.alignmentfiles = paths
+                args.bin = c['bin']
+                args.sliding = c['sliding']
+                args.joinedFeatureTags = 'XX,DS' if h['extra_tag'] else 'DS'
+                args.doNotDivideFragments = not c['divide']
+                args.keepOverBounds = c['keep']
+                old = sys.stdout
+                sys.stdout = devnull
+                try:
+                    df = T.create_count_table(args, return_df=True)
+                finally:
+                    sys.stdout = old
+                cells = []
+                for sample in df.columns:
+                    col = df[sample].dropna()
+                    for idx, v in col.items():
+                        idx = idx if isinstance(idx, tuple) else (idx,)
+                        sname = sample[0] if isinstance(sample, tuple) else sample
+                        lo, hi = int(idx[-2]), int(idx[-1])
+                        other = idx[0] if h['extra_tag'] else None
+                        v2 = float(v) * 2
+                        assert v2 == int(v2)
+                        if v2 != 0:
+                            cells.append([[sname, other, lo, hi], int(v2)])
+                outs.append({'cells': cells})
+            except BaseException as e:
+                outs.append({'error': '%s: %s' % (type(e).__name__, e)})
+        tabs.append(outs)
     return {'kernel_u': ku, 'kernel_t': kt, 'tables': tabs}
 
 
